@@ -117,3 +117,12 @@ Example c16_merge_nonvacuous :
   exists m', rmw_write (save empty_store 10 [1; 2; 3; 4]) 11 [9; 8; 7] (Some [true; false; true]) = Some m' /\
              load m' 10 4 = [1; 9; 3; 7].
 Proof. eexists. split; [reflexivity|]. vm_compute. reflexivity. Qed.
+
+(** Link between the two evaluators on the controller-kernel cases: whenever
+    the real controller's final storage equals the model's, it equals the flat
+    memory (the predicate [Exec.holds_on] evaluated on the observed bytes). *)
+From Akita Require Import C16.Exec C16.Link.
+Theorem c16_model_agreement_implies_property : forall init base ws final,
+  check_case (KCtl init base ws final) = true -> holds_on (KCtl init base ws final) = true.
+Proof. exact ctl_agreement_implies_property. Qed.
+Print Assumptions c16_model_agreement_implies_property.
